@@ -108,6 +108,13 @@ def run(c):
     c.guard("restamped_stale_ids", stale)
     for op in ("setepoch", "setlamport", "setid", "build"):
         c.guard("eventid_" + op, irep["ops"].get(op, 0))
+    # ---- encoders/decoders under a hostile caller (CodecSeq.tla): results are values, inputs are not modified
+    qedges = c.path("codecseq_edges.ndjson")
+    qres = c.tlc_must_pass("fn", "CodecSeq", cfg="MC_CodecSeq", edges_out=qedges, workers=4, timeout=900)
+    qrep = vlib.replay_edges(c, "codec-seq", qedges, walks=c.pick(200, 2000), wlen=c.pick(40, 80), clause="codec-purity")
+    c.log("CodecSeq: %d states, %d ordered pairs of encodes replayed (returned slices overwritten and appended to, every encoding decoded twice), %d walks" % (
+        qres.distinct, qrep["applied"], qrep["walks"]))
+    c.guard("codecseq_pairs", qrep["applied"])
     samples = []
     with open(out) as f:
         for l in f:
@@ -121,10 +128,11 @@ def run(c):
     trivial = 2  # the values 0 (all bytes equal in every order) of each width are counted as trivial
     obl.wait()
     cov = dict(
-        evaluations=rep["compared"] + irep["applied"] + irep["walk_steps"],
+        evaluations=rep["compared"] + irep["applied"] + irep["walk_steps"] + qrep["applied"] + qrep["walk_steps"],
+        codec_purity=dict(states=qres.distinct, transitions=qres.generated, edges_replayed=qrep["applied"], walks=qrep["walks"], walk_steps=qrep["walk_steps"]),
         event_id_machine=dict(states=ires.distinct, transitions=ires.generated, edges_replayed=irep["applied"], restamping_stale_id=stale,
                               walks=irep["walks"], walk_steps=irep["walk_steps"]),
-        traces_validated_against_impl=irep["walks"],
+        traces_validated_against_impl=irep["walks"] + qrep["walks"],
         distinct_nontrivial=distinct - trivial,
         rule="complete 16-bit table (65 536 values, TLC-enumerated); 32-bit values: seeded/boundary integers below 2^31 and limb pairs (all 64 combinations of "
              "{0,1,255,256,32767,32768,65534,65535} + random); 64-bit values as 4 limbs (%s boundary combinations + random); pairs of values (neighbours across byte "
